@@ -79,7 +79,6 @@ Arguments WRaise {A} _ _.
 Section Sem.
 Variable value : Type.
 Variable is_none : value -> bool.
-Variable veq : value -> value -> bool.       (* Python's `x is a or x == a` (list membership) *)
 
 Definition vfun := value -> outcome value.
 Definition dict := list (name * value).
@@ -278,20 +277,27 @@ Definition declared (k : name) : bool := existsb (fun p => Nat.eqb (p_name p) k)
 
 Definition all_flask_json : bool := forallb p_flask_json (d_params dc).
 
-(* the `k == 'args' and wants_args` branch of the positional loop: ALL positional values of the call that are not equal
-   to the value of a declared named positional (used_args, compared by ==) are zipped with the Parameters not used so
-   far, in declaration order; surplus values / Parameters are ignored by zip *)
-Definition used_args (bound : dict) : list value := map snd (filter (fun kv => declared (fst kv)) bound).
+(* the `k == 'args' and wants_args` branch of the positional loop (since /repo 1908fef, 137d0c4): the positionals collected
+   by the var-positional parameter are zipped, by position, with the Parameters not used so far (declaration order); a
+   positional beyond the last such Parameter: strict -> TooManyArguments (before anything is validated), otherwise it is
+   stored unchanged under the key "star-args[i]" (star_key i), so that it keeps its position in arrival order *)
+Definition star_key (i : nat) : name := 1000 + i.
 Fixpoint zip_loop (l : list (value * param)) (s : wstate) : M wstate :=
   match l with
   | [] => ret s
   | (a, p) :: rest =>
       mbind (param_validate p a) (fun v => zip_loop rest (dset (p_name p) v (fst s), snd s ++ [p_name p]))
   end.
-Definition zip_args (args : list value) (bound : dict) (s : wstate) : M wstate :=
-  let avail := filter (fun a => negb (existsb (fun u => veq u a) (used_args bound))) args in
+Fixpoint pass_surplus (i : nat) (l : list value) (r : dict) : dict :=
+  match l with
+  | [] => r
+  | a :: l' => pass_surplus (S i) l' (dset (star_key i) a r)
+  end.
+Definition zip_args (star : list value) (s : wstate) : M wstate :=
   let ps := filter (fun p => negb (mem (p_name p) (snd s))) (d_params dc) in
-  zip_loop (combine avail ps) s.
+  if d_strict dc && Nat.ltb (List.length ps) (List.length star) then fail TooManyArgumentsC None
+  else mbind (zip_loop (combine star ps) s)
+             (fun s' => ret (pass_surplus (List.length ps) (skipn (List.length ps) star) (fst s'), snd s')).
 
 Definition flask_strict (s : wstate) : M wstate :=
   if d_strict dc && w_flask_installed env then
@@ -314,7 +320,7 @@ Definition run_phase (c : call) (ph : phase) (s : wstate) : M wstate :=
           mbind (process true bound s) (fun s' =>
             match star with
             | [] => ret s'
-            | _ :: _ => zip_args (c_args c) bound s'
+            | _ :: _ => zip_args star s'
             end)
       | Raise e => fail (elookup (wc_bind_handlers cfg) e) None
       end
